@@ -91,3 +91,80 @@ def builds(name, depth=0):
             else:
                 out.add((opn, None))
     return out
+
+
+# ------------------------------------------------------------------------------------------------------
+# Interpretation tier: what a FormulaManager constructor builds, found by interpreting it on opaque
+# operands of each sort family.  Independent of how the constructor is written (helpers, tables).
+_ICACHE = {}
+_INT_PARAM_NAMES = {"start", "end", "stop", "steps", "increase", "count", "width", "k"}
+_FAMILIES = [("BOOL",), ("INT",), ("REAL",), ("BV", 4), ("STRING",), ("ARRAY", ("INT",), ("INT",))]
+
+
+def builds_interp(name):
+    """Set of (op name, operand order or None) that FormulaManager.<name> builds at top level on operands
+    of some sort family, or None if the constructor could not be interpreted at all."""
+    if name in _ICACHE:
+        return _ICACHE[name]
+    from .absint import Interp, Explorer, Unsupported, AbsRaise
+    from .world import World
+    repo = get_repo()
+    ci = repo.cls(FM)
+    f = ci.own_func(name)
+    if f is None:
+        _ICACHE[name] = None
+        return None
+    pos = f.args.args[1:]
+    n_def = len(f.args.defaults)
+    required = pos[:len(pos) - n_def] if n_def else pos
+    kinds = []
+    for a in required:
+        ann = a.annotation
+        txt = ast.unparse(ann) if ann is not None else ""
+        kinds.append("int" if (txt == "int" or a.arg in _INT_PARAM_NAMES) else "node")
+    if f.args.vararg is not None and not required:
+        kinds = ["node", "node"]
+    out = set()
+    any_ok = False
+    for fam in _FAMILIES:
+        def one(ex, fam=fam):
+            it = Interp(ex)
+            w = World().attach(it)
+            ops_, ints = [], [1, 2, 1]
+            for i, k in enumerate(kinds):
+                if k == "int":
+                    ops_.append(ints[i] if i < len(ints) else 1)
+                elif fam[0] == "ARRAY" and i > 0:
+                    ops_.append(w.symbol("x%d" % i, ("INT",)))
+                else:
+                    ops_.append(w.symbol("x%d" % i, fam))
+            node = w.app(name, *ops_)
+            if not w.is_node(node):
+                return None
+            order = []
+            for a in w.nargs(node):
+                hit = [i for i, o in enumerate(ops_) if o is a]
+                order.append(hit[0] if hit else None)
+            return (w.opname(node), tuple(order) if None not in order else None)
+        try:
+            paths = Explorer(max_paths=16).run(one)
+        except Unsupported:
+            continue
+        for p in paths:
+            if p.kind == "return":
+                any_ok = True
+                if p.value is not None:
+                    out.add(p.value)
+            elif p.kind == "raise":
+                any_ok = True
+    res = out if any_ok else None
+    _ICACHE[name] = res
+    return res
+
+
+def builds_any(name):
+    """Interpretation tier first, syntactic tier as a fall-back."""
+    r = builds_interp(name)
+    if r:
+        return r
+    return builds(name)
